@@ -7,6 +7,7 @@ CONSTANTS
   MaxMut = 2
   MaxFault = 2
   MaxEnv = 7
+  MaxHold = 1
 INIT Init
 NEXT Next
 INVARIANTS PropertyHolds Converged CacheIsView
